@@ -18,7 +18,7 @@ def unsafe_decode(string):
       raise gfapy.FormatError("the string does not represent a valid integer")
 
 def validate_decoded(obj):
-  if isinstance(obj, int) or isinstance(object, gfapy.Placeholder):
+  if isinstance(obj, int) or isinstance(obj, gfapy.Placeholder):
     pass
   else:
     raise gfapy.TypeError(
